@@ -1,52 +1,60 @@
-(* C10 (windowed classes) -- reset() and the ring-buffer cursor (D5).
-   reset() restores the registered states to their defaults; next_inserted is not registered and
-   keeps its value.  Refuted on the faithful models of WindowedClickThroughRate,
-   WindowedWeightedCalibration, WindowedBinaryNormalizedEntropy, WindowedBinaryAUROC.
-   (WindowedMeanSquaredError.compute() always sums the whole zero-padded buffer, so the stale
-   cursor is a mere rotation there: no refutation exists for it in merge-free histories.)
-   On the V_fixed variant reset() is the constructor state. *)
+(* C10 (windowed classes) -- reset() and the ring-buffer cursor.
+   Since the fix c5ceb09 every windowed class overrides reset():  super().reset(); next_inserted = 0.
+   The faithful model of the CURRENT code is V_code (reset rewinds the cursor; state_dict/load do
+   not carry it).  For V_code -- and for V_fixed -- reset() yields exactly the constructor state,
+   hence the behaviour of a fresh instance under every continuation.
+   The last section keeps, clearly labelled, the refutation for the PRE-FIX variant V_pre (the tree
+   before c5ceb09, where the cursor survived reset()); it says nothing about the current code. *)
 From Coq Require Import ZArith List Bool.
 From TE Require Import Base.Val Algebra.Metric Algebra.Pool Models.Window Models.WindowAUROC Proofs.WindowP.
 Import ListNotations.
 
-(* reset_breaks M K: after some history on object 0, obj0.reset() and a fresh obj1 fed the same
-   batches (compute() after every update) give different compute() results. *)
-Theorem window_reset_refuted : reset_breaks (wctr false) (wctr_codec false).
-Proof. exact wctr_reset_breaks. Qed.
-(* window 3, two updates, reset, one update [1]: 0 after reset, 1 on a fresh instance *)
-Theorem window_reset_refuted_values :
-  behaviour (wctr false) (wctr_codec false) wcfg3 2 (ctr_pre ++ [o_reset 0; o_new 1] ++ cont_on [ctr_b 1] 0) = [VL [vq (q 0 1)]] /\
-  behaviour (wctr false) (wctr_codec false) wcfg3 2 (ctr_pre ++ [o_reset 0; o_new 1] ++ cont_on [ctr_b 1] 1) = [VL [vq (q 1 1)]].
-Proof. exact wctr_reset_witness_values. Qed.
-Theorem window_reset_refuted_wcal : reset_breaks (wcal false) (wcal_codec false).
-Proof. exact wcal_reset_breaks. Qed.
-Theorem window_reset_refuted_wne : reset_breaks (wne false) (wne_codec false).
-Proof. exact wne_reset_breaks. Qed.
-Theorem window_reset_refuted_wauroc : reset_breaks (wauroc false) (wauroc_codec false).
-Proof. exact wauroc_reset_breaks. Qed.
-
-Theorem window_reset_fixed :
-  forall (W : WinSpec) (c : wcfg) (s : wst (wS W)), rst (win_metric W true) c s = init (win_metric W true) c.
-Proof. exact win_fixed_reset. Qed.
-Theorem window_reset_fixed_wauroc :
-  forall (c : acfg) (s : ast), rst (wauroc true) c s = init (wauroc true) c.
-Proof. exact wauroc_fixed_reset. Qed.
-(* in any pool, reset() leaves the objects exactly as constructing a new instance does *)
-Theorem window_reset_fixed_bisim :
-  forall (W : WinSpec) (K : Codec (win_metric W true)) (c : wcfg) (p : pool (win_metric W true)) (i : nat),
+(* reset() = the state of a freshly constructed instance (all registered states AND the cursor) *)
+Theorem window_reset_is_init :
+  forall (W : WinSpec) (c : wcfg) (s : wst (wS W)), rst (win_metric W V_code) c s = init (win_metric W V_code) c.
+Proof. intros W c s. apply win_reset_init. reflexivity. Qed.
+Theorem window_reset_is_init_wauroc :
+  forall (c : acfg) (s : ast), rst (wauroc V_code) c s = init (wauroc V_code) c.
+Proof. intros c s. apply wauroc_reset_init. reflexivity. Qed.
+(* in any pool, after any history, reset() leaves the objects exactly as constructing a new
+   instance does: identical states, identical observations under every continuation
+   (Pool.exec is a function of the pool) *)
+Theorem window_reset_bisim_fresh :
+  forall (W : WinSpec) (K : Codec (win_metric W V_code)) (c : wcfg) (p : pool (win_metric W V_code)) (i : nat),
     objs _ (after _ K c p [o_reset i]) = objs _ (after _ K c p [o_new i]).
 Proof. intros W K c. apply reset_bisim_of_eq. intros s. reflexivity. Qed.
-Theorem window_reset_fixed_bisim_wauroc :
-  forall (K : Codec (wauroc true)) (c : acfg) (p : pool (wauroc true)) (i : nat),
+Theorem window_reset_bisim_fresh_wauroc :
+  forall (K : Codec (wauroc V_code)) (c : acfg) (p : pool (wauroc V_code)) (i : nat),
     objs _ (after _ K c p [o_reset i]) = objs _ (after _ K c p [o_new i]).
 Proof. intros K c. apply reset_bisim_of_eq. intros s. reflexivity. Qed.
+(* the same for the V_fixed variant *)
+Theorem window_reset_fixed :
+  forall (W : WinSpec) (c : wcfg) (s : wst (wS W)), rst (win_metric W V_fixed) c s = init (win_metric W V_fixed) c.
+Proof. intros W c s. apply win_reset_init. reflexivity. Qed.
+Theorem window_reset_fixed_wauroc :
+  forall (c : acfg) (s : ast), rst (wauroc V_fixed) c s = init (wauroc V_fixed) c.
+Proof. intros c s. apply wauroc_reset_init. reflexivity. Qed.
+(* non-vacuity: the former witness (window 3, two updates, reset, one update [1]) on the current
+   model: 1 after reset, 1 on a fresh instance *)
+Example window_reset_former_witness_now_agrees :
+  behaviour (wctr V_code) (wctr_codec V_code) wcfg3 2 (ctr_pre ++ [o_reset 0; o_new 1] ++ cont_on [ctr_b 1] 0) = [VL [vq (q 1 1)]] /\
+  behaviour (wctr V_code) (wctr_codec V_code) wcfg3 2 (ctr_pre ++ [o_reset 0; o_new 1] ++ cont_on [ctr_b 1] 1) = [VL [vq (q 1 1)]].
+Proof. split; vm_compute; reflexivity. Qed.
 
-Print Assumptions window_reset_refuted.
-Print Assumptions window_reset_refuted_values.
-Print Assumptions window_reset_refuted_wcal.
-Print Assumptions window_reset_refuted_wne.
-Print Assumptions window_reset_refuted_wauroc.
+(* ---- PRE-FIX variant only (V_pre = tree before c5ceb09): stale cursor after reset() ---- *)
+Theorem prefix_variant_reset_refuted : reset_breaks (wctr V_pre) (wctr_codec V_pre).
+Proof. exact wctr_reset_breaks. Qed.
+Theorem prefix_variant_reset_refuted_values :
+  behaviour (wctr V_pre) (wctr_codec V_pre) wcfg3 2 (ctr_pre ++ [o_reset 0; o_new 1] ++ cont_on [ctr_b 1] 0) = [VL [vq (q 0 1)]] /\
+  behaviour (wctr V_pre) (wctr_codec V_pre) wcfg3 2 (ctr_pre ++ [o_reset 0; o_new 1] ++ cont_on [ctr_b 1] 1) = [VL [vq (q 1 1)]].
+Proof. exact wctr_reset_witness_values. Qed.
+
+Print Assumptions window_reset_is_init.
+Print Assumptions window_reset_is_init_wauroc.
+Print Assumptions window_reset_bisim_fresh.
+Print Assumptions window_reset_bisim_fresh_wauroc.
 Print Assumptions window_reset_fixed.
 Print Assumptions window_reset_fixed_wauroc.
-Print Assumptions window_reset_fixed_bisim.
-Print Assumptions window_reset_fixed_bisim_wauroc.
+Print Assumptions window_reset_former_witness_now_agrees.
+Print Assumptions prefix_variant_reset_refuted.
+Print Assumptions prefix_variant_reset_refuted_values.
